@@ -112,6 +112,7 @@ class Ctx:
                 E.solver.add(z3.Or(c < SURR_LO, c > SURR_HI))
             if alphabet is not None:
                 E.solver.add(core.in_ranges(c, core.ranges_of(alphabet)))
+            E.iv[c.get_id()] = (lo, hi, c)
             cs.append(c)
         E.model = None
         return self._reg(name, SStr(cs) if n else "")
@@ -122,7 +123,8 @@ class Ctx:
         v = z3.BitVec(name, W)
         E.solver.add(v >= lo, v <= hi)
         E.model = None
-        return self._reg(name, SInt(v, max(abs(lo), abs(hi)) + 1))
+        E.iv[v.get_id()] = (lo, hi, v)
+        return self._reg(name, SInt(v, lo, hi))
 
     def bool(self, name):
         if not self.sym:
@@ -200,11 +202,10 @@ class Ctx:
                 self.known_hits.append((kf["id"], label, self._witness(mk)))
         # continue the path under the postcondition (later checks see a consistent state)
         if isinstance(cond, SBool):
+            mm = E.sat(cond.z)
+            if mm is None:
+                raise PathEnd()       # violated for every value of the path; the path condition stays satisfiable
             E.solver.add(cond.z)
-            E.model = None
-            ok, mm = E._check()
-            if not ok:
-                raise PathEnd()
             E.model = mm
         else:
             raise PathEnd()
@@ -248,6 +249,10 @@ class Runner:
                    samples=[], reached=0, discharged=0, assume={}, error=None, left=[], exc_paths={})
         E.reset_stats()
         E.assume_counts = {}
+        global _LAST_JOB
+        if _LAST_JOB != job:
+            E.merge_cache.clear()      # the replay cache is only valid within one (family, backend)
+            _LAST_JOB = job
         rng = random.Random(self.seed * 1000003 + hash((fi, backend, len(prefixes))) % 1000003)
 
         def one_path():
@@ -297,7 +302,10 @@ class Runner:
         except HarnessError as e:
             res["error"] = "HARNESS-ERROR " + str(e) + " @ " + _where(e)
         except Exception as e:
-            res["error"] = "HARNESS-ERROR uncaught " + repr(e) + "\n" + traceback.format_exc()[-2500:]
+            res["error"] = ("HARNESS-ERROR uncaught " + repr(e) + " prefix=" + repr(E.prefix) + " trace=" + repr(E.trace) +
+                            "\n" + traceback.format_exc()[-2500:])
+        if E.n_unexpected_aborts and not res["error"]:
+            res["error"] = "HARNESS-ERROR %d path(s) aborted unexpectedly (infeasible replay or dropped path)" % E.n_unexpected_aborts
         res["paths"] = E.n_paths
         res["queries"] = E.n_queries
         res["solver_s"] = E.t_solver
@@ -376,8 +384,9 @@ class Runner:
                                 queue.append((j, part))
                 submit()
             if timed_out:
+                procs = list((getattr(ex, "_processes", None) or {}).values())
                 ex.shutdown(wait=False, cancel_futures=True)
-                for p in list(getattr(ex, "_processes", {}).values()):
+                for p in procs:
                     try:
                         p.terminate()
                     except Exception:
@@ -388,6 +397,7 @@ class Runner:
 
 
 _RUNNER = None
+_LAST_JOB = None
 
 
 def _run_slice(job, prefixes, max_paths):
